@@ -10,6 +10,8 @@ def run(res, work, tier, seed):
                    Script="ScriptC09", Apps='{"a1","a2"}', Passers='{"p1"}', NObj=2)
     vlib.tallycore(work, res, "WeakNoRecheckUnderLock", expect="Conservation", Script="ScriptC09", Apps='{"a1","a2"}', Passers='{"p1"}', NObj=3, WeakNoRecheckUnderLock="TRUE")
     vlib.run_core_family(res, work, "c09", tier, seed, parts=16, clauses=CLAUSES, timeout=3400)
+    from props import corestep
+    corestep.run(res, work, tier, seed, "C09")   # step-level replay of the st-c09 scenarios through TallyCore.tla (drift, not a verdict)
     if tier == "thorough":
         # data-race clause: the same random scenarios under the Go race detector (observation channel of the conformance runs)
         race_clause(res, work, seed)
